@@ -390,6 +390,7 @@ pub trait Vec1View<T>: TIter<T> {
         Self: 'a,
         T: 'a,
     {
+        assert!(window > 0, "window must be greater than 0");
         let len = self.len();
         let window = window.min(len);
         if window == 0 {
@@ -561,6 +562,7 @@ pub trait Vec1View<T>: TIter<T> {
         T: Clone,
         F: FnMut(Option<T>, T) -> OT,
     {
+        assert!(window > 0, "window must be greater than 0");
         let len = self.len();
         let window = window.min(len);
         if window == 0 {
@@ -680,6 +682,7 @@ pub trait Vec1View<T>: TIter<T> {
     ) where
         F: FnMut(Option<(T, T2)>, (T, T2)) -> OT,
     {
+        assert!(window > 0, "window must be greater than 0");
         let len = self.len();
         let window = window.min(len);
         if window == 0 {
@@ -791,6 +794,7 @@ pub trait Vec1View<T>: TIter<T> {
         // start, end, value
         F: FnMut(Option<usize>, usize, T) -> OT,
     {
+        assert!(window > 0, "window must be greater than 0");
         let len = self.len();
         let window = window.min(len);
         if window == 0 {
@@ -912,6 +916,7 @@ pub trait Vec1View<T>: TIter<T> {
     ) where
         F: FnMut(Option<usize>, usize, (T, T2)) -> OT,
     {
+        assert!(window > 0, "window must be greater than 0");
         let len = self.len();
         let window = window.min(len);
         if window == 0 {
